@@ -49,7 +49,7 @@ def run(ctx):
                 ctx.fail(f"subgraph {i} is transformed differently inside the multi-subgraph model: {first_diff(a, b)}", case.replay(), "subgraph-differs")
                 return
             ctx.tag("subgraph_compared")
-    fp.explore(ctx, drv, 90 if ctx.tier == "quick" else 2000, per_case, gen=gen, graph_corr=True, pipe_corr=True)
+    fp.explore(ctx, drv, 250 if ctx.tier == "quick" else 2000, per_case, gen=gen, graph_corr=True, pipe_corr=True)
     drv.close()
     return common.finish(ctx)
 
